@@ -42,7 +42,7 @@ func newCaseDir() string {
 }
 
 // StallTimeout bounds every controller wait (expected: micro- to milliseconds).
-var StallTimeout = 30 * time.Second
+var StallTimeout = 60 * time.Second
 
 // verifMergeOp is the oracle merge operator (see MergeFold).
 type verifMergeOp struct{ calls int64 }
